@@ -59,6 +59,7 @@ Definition st_eqb (x y : st) : bool :=
 
 Inductive op :=
 | OAbort (f : uid) (d : bool)
+| OAbortNR (f : uid) (d : bool)      (* _abort_flow(..., restart_flow=False) *)
 | OFinish (f : uid) (d : bool)
 | OEndScope (f : uid) (name : N)
 | OEvent (k : akind) (a : uid).
@@ -81,6 +82,7 @@ Definition run_op (s : st) (o : op) : res st :=
   let fuel := S (length (flows s)) in
   match o with
   | OAbort f d => abort fuel s f d
+  | OAbortNR f d => abort_top false fuel s f d
   | OFinish f d => finish fuel s f d
   | OEndScope f n => end_scope scope_release_shared fuel s f n
   | OEvent k a => Ok (action_event k a s)
